@@ -440,6 +440,9 @@ def registry():
                         "five-stage simulation with the same caches: same load outcome, termination, faulting address and state at the "
                         "fault, final registers, memory, output, exit code and instruction / branch / call counts.")
     reg["C02"].components_real = reg["C02"].components_real + LIFE_REAL[:3]
+    reg["C09"].batches += [L.TextPairs("asm-modes-dc", "modes-dc", 3000, 50000)]
+    reg["C09"].rule += (" lifesim batch asm-modes-dc: generated assembler texts through the real assembler into a single-cycle and a "
+                        "five-stage simulation with the same data cache: hit counter, access counter and last-hit flag identical at the end.")
     reg["C09"].batches += [L.ApiEpisodes("api-dcache-loads", 1200, 20000, isa="riscv", flavour="loads", force={"dc": {"enable": True}})]
     reg["C09"].components_real = reg["C09"].components_real + LIFE_REAL[:3]
     reg["C11"].components_real = reg["C11"].components_real + LIFE_REAL[:2]
